@@ -160,6 +160,44 @@ Print Assumptions incdec_chunking.
 Print Assumptions incenc_chunking.
 Print Assumptions decode_encode.
 
+(* ---------------------------------------------------------------- StreamWriter *)
+(* StreamWriter.encode is IncrementalEncoder.encode without a final call (enc_step _ false; compared with the class
+   call by call).  Writes are chunking invariant; once the header is decided the stream holds exactly the one-shot
+   encoding; before that nothing is written.  (An undecided header at close is lost: open finding.) *)
+Section C14_stream.
+  Variable est : Type.
+  Variable einit : str -> option est.
+  Variable estep : est -> str -> bool -> est * res str.
+  Variable eshot : str -> str -> res str.
+  Hypothesis estep_concat : forall d a b fin d' o1, estep d a false = (d', Ok o1) ->
+    estep d (a ++ b) fin =
+    (fst (estep d' b fin), match snd (estep d' b fin) with Ok o2 => Ok (o1 ++ o2) | Err e => Err e end).
+  Hypothesis estep_error : forall d a b fin d' e, estep d a false = (d', Err e) -> snd (estep d (a ++ b) fin) = Err e.
+  Hypothesis eshot_spec : forall e t,
+    eshot e t = match einit e with None => Err ELookup | Some d => snd (estep d t true) end.
+  Hypothesis estep_final_irrelevant : forall e y, snd (estep e y false) = snd (estep e y true).
+
+  Theorem streamwriter_chunking : forall st c r,
+    collapse (enc_trace_nf est einit estep st (c :: r)) = snd (enc_step est einit estep st (c ++ concat r) false).
+  Proof. exact (fun st c r => sw_chunking_thm est einit estep estep_concat estep_error r st c). Qed.
+
+  Theorem streamwriter_decided : forall enc t, decided enc t ->
+    snd (enc_step est einit estep (enc_init est enc) t false) = encode eshot t enc.
+  Proof. exact (fun enc t => sw_decided_thm est einit estep eshot eshot_spec enc t estep_final_irrelevant). Qed.
+
+  Theorem streamwriter_undecided : forall enc t, ~ decided enc t ->
+    snd (enc_step est einit estep (enc_init est enc) t false) = Ok [].
+  Proof. exact (sw_undecided_thm est einit estep). Qed.
+End C14_stream.
+Print Assumptions streamwriter_chunking.
+Print Assumptions streamwriter_decided.
+Print Assumptions streamwriter_undecided.
+
+Theorem streamwriter_decided_concrete : forall enc t, decided enc t ->
+  snd (enc_step cest ce_init ce_step (enc_init cest enc) t false) = encode ce_shot t enc.
+Proof. exact sw_decided_concrete. Qed.
+Print Assumptions streamwriter_decided_concrete.
+
 (* ---------------------------------------------------------------- decode after encode, DETECTED encoding *)
 Section C14_detected.
   Variable dshot : str -> str -> res str.      (* codecs.getdecoder(name)(bytes)[0] *)
@@ -310,3 +348,8 @@ Example incenc_chunking_concrete_instance :
   enc_feed cest ce_init ce_step (enc_init cest None) [s "@charset ""utf"; s "-16"";"] [8364]%N
   = encode ce_shot (s "@charset ""utf-16"";" ++ [8364]%N) None.
 Proof. vm_compute. reflexivity. Qed.
+
+Example streamwriter_instance :
+  collapse (c_sw_trace None [s "@char"; s "set ""utf-8"";"; s "a"]) = Ok (s "@charset ""utf-8"";a")
+  /\ c_sw_trace None [s "@char"; s "set ""x"] = [Ok []; Ok []].
+Proof. split; vm_compute; reflexivity. Qed.
